@@ -46,6 +46,10 @@ GOf(nd) == UNION {HistPairs(nd[n]) : n \in {m \in Nodes : nd[m].alive}}
 CGOf(nd) == UNION {CommittedOf(nd[n]) : n \in {m \in Nodes : nd[m].alive}}
 ElectedOf(nd) == {<<nd[n].term, n>> : n \in {m \in Nodes : nd[m].alive /\ nd[m].role = "L"}}
 GrantedOf(nd) == {<<n, nd[n].term, nd[n].votedFor>> : n \in {m \in Nodes : nd[m].alive /\ nd[m].votedFor # Nil}}
+(* ... and the votes that are on the wire: a process killed inside the step in which it granted its vote is never seen with *)
+(* that vote in its memory, but the candidate counts the reply it had sent                                                  *)
+GrantsOnWire == UNION {{<<n, chan'[n][j][k].term, j>> : k \in {k2 \in 1..Len(chan'[n][j]) : chan'[n][j][k2].t = "vote"}} :
+                          <<n, j>> \in Nodes \X Nodes}
 
 GInit == /\ lastTick = Nil /\ maxTerm = [n \in Nodes |-> 0] /\ ackIdx = [n \in Nodes |-> 0]
          /\ preCrash = [n \in Nodes |-> [has |-> FALSE]] /\ subm = <<>> /\ reapply = [n \in Nodes |-> 0] /\ G = GOf(node) /\ CG = {<<1, 0, NoopCmd, 0>>} /\ elected = ElectedOf(node) /\ granted = GrantedOf(node)
@@ -57,7 +61,7 @@ GNextWith(extra) ==
                       new == CGOf(node') \cup UNION {CommittedOf(s) : s \in extra}
                   IN CG \cup {p \in new : Key3(p) \notin have}
          /\ elected' = elected \cup ElectedOf(node')
-         /\ granted' = granted \cup GrantedOf(node')
+         /\ granted' = granted \cup GrantedOf(node') \cup GrantsOnWire
          /\ maxTerm' = [n \in Nodes |-> IF node'[n].alive /\ node'[n].term > maxTerm[n] THEN node'[n].term ELSE maxTerm[n]]
          /\ ackIdx' = [n \in Nodes |->
                IF ~node'[n].alive THEN ackIdx[n]
